@@ -574,4 +574,33 @@ def detectProxy (p : Proto) (a : Auth) (attempts : List Attempt) : Except PyExc 
   | .returned e => .ok (e == .socksFailure)
   | .escaped e => .error e
 
+/-! ## `_connect` : one `_connect_one` per remote address -/
+
+/-- what `_connect_one(remote_address)` gave, as `_connect` sees it.  `reprId` stands for
+    `repr(exception)`: only equality of reprs matters. -/
+inductive AddrOutcome where
+  | sock (unread : Bytes)
+  | exc (e : PyExc) (reprId : Nat)
+  | escaped (e : PyExc)
+  deriving DecidableEq, Repr
+
+inductive ConnectRes where
+  | connected (addrIndex : Nat) (unread : Bytes)
+  | raised (e : PyExc)
+  deriving DecidableEq, Repr
+
+/-- the `for` loop of `_connect` (with the exceptions collected so far, in order) and the final
+    `raise` -/
+def connectLoop : List AddrOutcome → Nat → List (PyExc × Nat) → ConnectRes
+  | [], _, [] => .raised .assertionError          -- `assert remote_addresses`
+  | [], _, (e, r) :: rest =>
+    -- `strings = set(repr(exc) ...)`; `len(strings) == 1`
+    if rest.all (fun x => x.2 == r) then .raised e else .raised .osError
+  | .sock u :: _, i, _ => .connected i u
+  | .escaped e :: _, _, _ => .raised e
+  | .exc e r :: as, i, acc => connectLoop as (i + 1) (acc ++ [(e, r)])
+
+/-- `SOCKSProxy._connect(remote_addresses)` -/
+def connect (outcomes : List AddrOutcome) : ConnectRes := connectLoop outcomes 0 []
+
 end Aiorpcx.Socks
